@@ -226,15 +226,16 @@ Definition range_scale_s (tout : ity) (in_min in_max : num) : res scaling :=
 
 (* ---------------------------------------------------------------- calc_scale *)
 (* the writer's view of the data: finite range as numbers, has_nan, any finite value *)
-Record dview := mkDview { d_mn : num; d_mx : num; d_has_nan : bool; d_isfloat : bool; d_nofinite : bool }.
+Record dview := mkDview { d_mn : num; d_mx : num; d_has_nan : bool; d_isfloat : bool; d_nofinite : bool;
+                          d_has_inf : bool   (* np.any(np.isinf(data)) *) }.
 
 Definition view (d : indata) : dview :=
   match d with
   | InF k xs => let '(mn, mx, hn) := finite_range_f k xs in
-                mkDview (NF k mn) (NF k mx) hn true (is_inf_sf mn)
+                mkDview (NF k mn) (NF k mx) hn true (is_inf_sf mn) (existsb is_inf_sf xs)
   | InI t xs => match xs with
-                | [] => mkDview (NI 0) (NI 0) false false true
-                | x :: r => mkDview (NI (zmin_list r x)) (NI (zmax_list r x)) false false false
+                | [] => mkDview (NI 0) (NI 0) false false true false
+                | x :: r => mkDview (NI (zmin_list r x)) (NI (zmax_list r x)) false false false false
                 end
   end.
 
@@ -245,10 +246,12 @@ Definition calc_scale (k : wkind) (d : indata) (tout : ity) : res scaling :=
   let zero := NI 0 in
   match d with
   | InF _ _ =>
-      (* ArrayWriter.scaling_needed: float -> int needs scaling unless all finite data are 0 *)
+      (* ArrayWriter.scaling_needed: float -> int needs scaling unless all finite data are 0; then
+         (fix b5843164) the plain writer still refuses when there are infinities, which only the
+         scaling writers threshold away (their scaling_needed answers False for (0, 0)) *)
       let all_zero := num_eq (d_mn v) zero && num_eq (d_mx v) zero in
       match k with
-      | WPlain => if all_zero then Ok scaling_default else Err EWriterError
+      | WPlain => if all_zero && negb (d_has_inf v) then Ok scaling_default else Err EWriterError
       | _ =>
           if all_zero || d_nofinite v then Ok scaling_default
           else
